@@ -201,6 +201,7 @@ package confchange
 //@   trusted
 //@   pure
 //@   ensures #counts [C13] result == symdiffSpec(l, r)
+//@   ensures #witness-form [C13] result <= 1 ==> (forall a uint64, b uint64 :: (has(l, a) != has(r, a)) && (has(l, b) != has(r, b)) ==> a == b)
 
 //@ -- ------------------------------------------------------------------------------------------
 //@ -- the three operations. valid_input: what the Changer must be given (a configuration that satisfies the invariants, as produced
@@ -211,8 +212,11 @@ package confchange
 //@ pred input_untouched() := allocframe("M$map[uint64]struct{}", "M$map[uint64]*tracker.Progress", "F$tracker.Progress", "F$tracker.Inflights")
 //@ pred cfg_result(cfg tracker.Config, trk tracker.ProgressMap) := cfg_inv(cfg, trk) && trk_only_members(cfg, trk) && progress_values_nonnil(trk) && cfg.Voters[0] != nil
 
+//@ pred differs(a quorum.MajorityConfig, b quorum.MajorityConfig, id uint64) := has(a, id) != has(b, id)
 //@ func confchange.Changer.Simple [C13 C14]
 //@   requires #valid-input [C14] valid_input(c)
+//@   -- symdiff <= 1 in witness form: any two ids on which the old and the new incoming voter sets disagree are the same id
+//@   ensures #at-most-one-voter-changed [C13] result2 == nil ==> (forall a uint64, b uint64 :: differs(c.Tracker.Voters[0], result0.Voters[0], a) && differs(c.Tracker.Voters[0], result0.Voters[0], b) ==> a == b)
 //@   ensures #invariants [C13] result2 == nil ==> cfg_result(result0, result1)
 //@   ensures #a-voter-remains [C13] result2 == nil ==> len(result0.Voters[0]) > 0
 //@   ensures #stays-simple [C13] result2 == nil ==> len(result0.Voters[1]) == 0
